@@ -651,6 +651,8 @@ func Main(args []string) int {
 	n := fs.Int("n", 40, "seeded schedules")
 	child := fs.String("child", "", "internal: malformed scenario")
 	one := fs.String("one", "", "internal: run one scenario (JSON) and print its events")
+	rerun := fs.String("rerun", "", "run only the scenarios of this file (a JSON list), one at a time")
+	times := fs.Int("times", 2, "with --rerun: how often each scenario is run")
 	fs.Parse(args)
 	if *child != "" {
 		return runMalformed(*child)
@@ -771,10 +773,33 @@ func Main(args []string) int {
 		}
 		scs = append(scs, s)
 	}
+	malformedKinds := []string{"short-header-close", "datalen-too-big-close", "huge-datalen", "unknown-kinds", "garbage", "bad-replies",
+		"short-reply:g:0", "short-reply:g:3", "short-reply:g:6", "short-reply:X:0", "short-reply:R:0", "short-reply:Y:0", "short-reply:Y:2", "short-reply:C:0",
+		"connect-during-close", "connect-during-close", "connect-during-close"}
+	parallel := 8
+	if *rerun != "" {
+		// confirmation runs: the given scenarios only, nothing else running beside them
+		var given []scen
+		b, err := os.ReadFile(*rerun)
+		if err != nil || json.Unmarshal(b, &given) != nil {
+			fmt.Fprintln(os.Stderr, "cannot read the scenarios to re-run:", err)
+			return 2
+		}
+		scs, malformedKinds, parallel = nil, nil, 1
+		for _, g := range given {
+			for k := 0; k < *times; k++ {
+				if g.Kind == "malformed" {
+					malformedKinds = append(malformedKinds, g.Malform)
+				} else {
+					scs = append(scs, g)
+				}
+			}
+		}
+	}
 	results := make([][]rec.Event, len(scs))
 	selfExe, _ := os.Executable()
 	var wg sync.WaitGroup
-	sem := make(chan struct{}, 8)
+	sem := make(chan struct{}, parallel)
 	for i := range scs {
 		wg.Add(1)
 		sem <- struct{}{}
@@ -834,9 +859,7 @@ func Main(args []string) int {
 	}
 	// malformed input from the TNC: each in its own process
 	self, _ := os.Executable()
-	for _, k := range []string{"short-header-close", "datalen-too-big-close", "huge-datalen", "unknown-kinds", "garbage", "bad-replies",
-		"short-reply:g:0", "short-reply:g:3", "short-reply:g:6", "short-reply:X:0", "short-reply:R:0", "short-reply:Y:0", "short-reply:Y:2", "short-reply:C:0",
-		"connect-during-close", "connect-during-close", "connect-during-close"} {
+	for _, k := range malformedKinds {
 		cmd := exec.Command(self, "agwpe", "--child", k)
 		cmd.Env = append(os.Environ(), "GOMEMLIMIT=2GiB")
 		var stderr bytes.Buffer
